@@ -117,3 +117,49 @@ Theorem C23_source_bcast_root :
   forall part : list nat,
     Gen_Allreduce.Gen_bcast_root (who part) = who part Gen_Allreduce.Gen_result_index.
 Proof. exact ProofsGen.source_bcast_root. Qed.
+
+(* ---- message-kind protocols of _send / _recv / _bcast (ModelProto.v) ---- *)
+Require NV.C23.ModelProto NV.C23.ProofsProto.
+
+(* For EVERY payload type (MultiFields with any number k of keys included) the sequence of call kinds
+   (pickled `recv` / raw-buffer `Recv`) that `_recv` performs is exactly the sequence (`send` / `Send`)
+   that `_send` performs: every rendezvous of a transfer pairs calls of the same kind. *)
+Theorem C23_send_recv_protocols_match :
+  forall t : vtype, ModelProto.recv_kinds t = ModelProto.send_kinds t.
+Proof. exact ProofsProto.recv_send_match. Qed.
+
+(* The message counts that the event model uses (M = nmsgs t, B = nbcast t) are the lengths of these
+   protocols, and every payload type needs at least one message -- the hypothesis 1 <= M of
+   C23_value / C23_canonical_run holds for every payload type. *)
+Theorem C23_protocol_lengths :
+  forall t : vtype,
+    length (ModelProto.send_kinds t) = nmsgs t /\ length (ModelProto.recv_kinds t) = nmsgs t /\
+    length (ModelProto.bcast_kinds t) = nbcast t /\ 1 <= nmsgs t.
+Proof. exact ProofsProto.proto_lengths. Qed.
+
+(* The kind-annotated per-task program compared with the recording communicator refines the program
+   that C23_value / C23_no_deadlock quantify over: forgetting the kinds gives rank_comm_program, for
+   every partition, payload type and task. *)
+Theorem C23_kind_program_projects :
+  forall (part : list nat) (t : vtype) (r : nat),
+    map fst (ModelProto.rank_kind_program part t r) = rank_comm_program part (nmsgs t) (nbcast t) r.
+Proof. exact ProofsProto.kind_program_projects. Qed.
+
+(* The [nth] defaults in ModelProto.kaction are unreachable: every message index / broadcast index
+   occurring in the global event list lies inside the protocol of its payload type. *)
+Theorem C23_kinds_defined :
+  forall (part : list nat) (t : vtype) (e : ev),
+    In e (G part (nmsgs t) (nbcast t)) ->
+    match snd e with
+    | Msg _ _ i _ => i < length (ModelProto.send_kinds t) /\ i < length (ModelProto.recv_kinds t)
+    | Coll (S (S c)) => c < length (ModelProto.bcast_kinds t)
+    | _ => True
+    end.
+Proof. exact ProofsProto.kinds_defined. Qed.
+
+(* Non-vacuity: a MultiField with two keys travels as keys + 2 x (header, value). *)
+Example C23_multi2_protocol :
+  ModelProto.send_kinds (TMulti 2) = [0; 0; 0; 0; 0] /\ ModelProto.bcast_kinds TNdarray = [0; 0; 1] /\
+  ModelProto.rank_kind_program [1; 1] TNdarray 1 =
+    [((4, 0), 2); ((4, 0), 3); ((3, 0), 0); ((3, 0), 1); ((4, 0), 0); ((4, 0), 0); ((4, 0), 1)].
+Proof. repeat split. Qed.
